@@ -40,6 +40,12 @@ func main() {
 			fmt.Fprintln(os.Stderr, err)
 			os.Exit(2)
 		}
+	case "vocab":
+		// regenerate vocab.json: the signatures of the locals of every function the rule tables look into
+		if err := writeVocab(*repo, *verif); err != nil {
+			fmt.Fprintln(os.Stderr, err)
+			os.Exit(2)
+		}
 	case "manifest":
 		if err := writeManifest(*verif); err != nil {
 			fmt.Fprintln(os.Stderr, err)
